@@ -414,6 +414,21 @@ func (db *DB) getByUUID(in Object, uuid string) (out Object, err error) {
 }
 
 // gets a single Object from the DB
+// setExportedFields copies the exported fields of struct src into struct dst
+// (same type), those promoted from embedded structs of non exported types
+// included
+func setExportedFields(dst, src reflect.Value) {
+	for i := 0; i < dst.NumField(); i++ {
+		f := dst.Field(i)
+		switch {
+		case f.CanSet():
+			f.Set(src.Field(i))
+		case dst.Type().Field(i).Anonymous && f.Kind() == reflect.Struct:
+			setExportedFields(f, src.Field(i))
+		}
+	}
+}
+
 func (db *DB) get(in Object) (out Object, err error) {
 	var path string
 	var ok bool
@@ -431,7 +446,21 @@ func (db *DB) get(in Object) (out Object, err error) {
 	}
 
 	path = filepath.Join(db.oDir(in), s.filename(in))
-	err = unmarshalJsonFile(path, in, s.Compress)
+	if v := reflect.ValueOf(in); v.Kind() == reflect.Ptr && !v.IsNil() && v.Elem().Kind() == reflect.Struct {
+		// the file is decoded into a new object, the fields of which replace
+		// those of the caller's object once the file has been read: decoding
+		// straight into the caller's object keeps its values for the fields
+		// not present in the file (omitempty) and merges its maps with the
+		// stored ones
+		fresh := reflect.New(v.Type().Elem())
+		if err = unmarshalJsonFile(path, fresh.Interface(), s.Compress); err == nil {
+			uuid := in.UUID()
+			setExportedFields(v.Elem(), fresh.Elem())
+			in.Initialize(uuid)
+		}
+	} else {
+		err = unmarshalJsonFile(path, in, s.Compress)
+	}
 	out = in
 
 	// we cache the object only if it has been read successfully
